@@ -216,4 +216,27 @@ def bytesReprToString (b : List Nat) : Option (List Nat) :=
   | none => none
   | some _ => some (bytesRepr b)
 
+/-! ## `AsciiEscape::new`, `named_repr_layout`, `Display` -/
+
+/-- `AsciiEscape::named_repr_layout(source, name)`: the same loop as `repr_layout` with
+    `reserved_len = name.len() + 2 + 3` (`name`, the two parentheses, `b` and the two quotes) and
+    preferred quote `Single`.  `nameLen` is `name.len()`.  (For `name.len() + 5 > isize::MAX` the
+    cast `a as isize` of the real closure wraps; no `&str` of that length exists, the model and the
+    streams stay below.) -/
+def aNamedReprLayout (nameLen : Nat) (b : List Nat) : Layout :=
+  layoutGo aEscapedCharLen .single (nameLen + 2 + 3) b (nameLen + 2 + 3) 0 0
+
+/-- `AsciiEscape::new(source, layout).bytes_repr()` written out: `new` stores the two fields -/
+def bytesReprNew (b : List Nat) (l : Layout) : List Nat := aWrite b l
+
+/-- `AsciiEscape::new(b, AsciiEscape::named_repr_layout(b, name)).bytes_repr()` written out -/
+def bytesReprNamed (nameLen : Nat) (b : List Nat) : List Nat :=
+  bytesReprNew b (aNamedReprLayout nameLen b)
+
+/-- `impl Display for StrRepr`: `fmt` is `self.write(formatter)` -/
+def strReprFmt (p : Nat → Bool) (s : List Nat) (l : Layout) : List Nat := uWrite p s l
+
+/-- `impl Display for BytesRepr`: `fmt` is `self.write(formatter)` -/
+def bytesReprFmt (b : List Nat) (l : Layout) : List Nat := aWrite b l
+
 end PV.C16
